@@ -54,6 +54,8 @@ THEOREMS = [
     "Nix.C03.legal_name_accepted_multi_tag_full",
     "Nix.C03.legal_name_accepted_frame_full",
     "Nix.C03.legal_name_accepted_section_full",
+    "Nix.C03.legal_name_accepted_property",
+    "Nix.C03.legal_name_accepted_property_full",
     "Nix.C03.other_kinds_untouched_frame",
     "Nix.C03.other_kinds_untouched_in",
     "Nix.C03.legal_name_accepted_partial",
@@ -81,7 +83,8 @@ ASSUMPTIONS = [
     "spellings; the complete uuid.UUID(text) acceptance is Py.uuidAccepts (Unicode 15.0 decimal digits / white space "
     "as in CPython 3.12), pinned by the correspondence; both agree on the generators' name pool",
 ]
-TRUSTED_EXTRA = ["harness/lib/storeimpl.py + storegen.py + props/c03_gen.py (path addressing by iteration, HDF5-level dump with h5py)"]
+TRUSTED_EXTRA = ["harness/lib/storeimpl.py + storegen.py + props/c03_gen.py (path addressing by iteration, HDF5-level dump with h5py)",
+                 "harness/extract/c03_contshape.py (symbolic execution of the lookup functions; table expression -> atom)"]
 READY = True
 MANIFEST = {
     "level_text": "Kernel-checked theorems over a Lean model of the HDF5 object graph under a NIX file and of nixio's "
@@ -95,9 +98,9 @@ MANIFEST = {
                   "the same entry of the creation-ordered link list (views_agree_reachable); names and ids are unique; "
                   "duplicates are refused by every create function, each looking into its own container only; ids never "
                   "change under any operation (id_stable, id_stable_x); an accepted create call of any kind (blocks, "
-                  "sections at any depth, groups, arrays, frames, tags, multi tags, sources at any depth) appends the "
+                  "sections at any depth, groups, arrays, frames, tags, multi tags, sources at any depth, properties) appends the "
                   "entity last under its name with a fresh id, addressable by position / name / id / entity, delete-by-"
-                  "name restores the list (AcceptedAs: legal_name_accepted_block/_in/_frame/_section), and leaves the "
+                  "name restores the list (AcceptedAs: legal_name_accepted_block/_in/_frame/_section/_property), and leaves the "
                   "other containers of the same parent untouched (other_kinds_untouched_*: names are unique per kind); "
                   "deleting from a plain container removes exactly the addressed entry and keeps the order of the "
                   "rest; link-list append puts the entry last (re-append moves it to the end), unlink keeps the rest. "
@@ -108,15 +111,29 @@ MANIFEST = {
                   "dispatch function of the structural model agrees with it on the histories' name pool "
                   "(dispatch_agrees_on_pool). The shape of the ten create functions (container tested before "
                   "DuplicateName, container created into, class created) is regenerated from block.py / section.py / "
-                  "source.py / file.py (Generated/CreateShape.lean) and proved to be the model's (create_shape_*).",
+                  "source.py / file.py (Generated/CreateShape.lean) and proved to be the model's (create_shape_*). "
+                  "The decision trees of Container.__contains__ / __getitem__, LinkContainer.__contains__ / __getitem__ "
+                  "and H5Group.get_by_id_or_name (tests and outcomes in the order of the code, each atom with the meaning "
+                  "of its own Python expression: Store/ContShape.lean) are regenerated from container.py / h5group.py "
+                  "(Generated/ContShape.lean) and proved to compute contHas / contGet / getByIdOrName for all graphs, "
+                  "containers and keys (contains_shape_*, getitem_shape_*, h5_lookup_shape). Entity objects as keys: an "
+                  "entity object is the node its HDF5 object is, whatever path it was opened through (owning container, "
+                  "link list, positions / extents / metadata / link / feature data, a kept handle); membership by entity "
+                  "is True exactly when the node is an entry (membership_by_entity / _link / _by_handle), deletion by "
+                  "entity removes exactly that entry and every key form deletes what the entity key deletes "
+                  "(delete_by_entity, delete_key_forms_agree). A legal name that is free in the function's own container "
+                  "is accepted: the success of the call is proved, not assumed (legal_name_accepted_in_full / "
+                  "_multi_tag_full / _frame_full / _section_full / _property_full).",
     "technique": "Lean 4 proof (invariant over unbounded histories, per-function lemmas, decide over the regenerated "
-                 "create-shape table) with differential correspondence",
+                 "create-shape table, decision trees of the lookups regenerated from the source and proved equal to the "
+                 "model) with differential correspondence",
     "level_note": "Trusted: Lean kernel; standard axioms; the correspondence harness; the create-shape translator; h5py/HDF5 link semantics "
                   "(creation-order iteration, hard links) are modelled, not verified; uuid4 freshness is an explicit "
-                  "hypothesis (OpX.Fresh). Partial: acceptance is proved with the success of the call as a hypothesis "
-                  "for create_group/array/tag/multi_tag/source/frame/section (for create_block the success itself is "
-                  "proved from the legality of the name); properties have duplicate_refused_property, the invariant and "
-                  "id stability, but no AcceptedAs packaging; create_multi_tag with raw positions / extents "
+                  "hypothesis (OpX.Fresh); the vocabulary of the decision trees (which Python expression is which atom: "
+                  "table in extract/c03_contshape.py, meanings in Store/ContShape.lean; the positional branch of "
+                  "Container.__getitem__ is pinned as a whole). Partial: File.create_section tests `name in self.sections` "
+                  "(ids first), so legal_name_accepted_section_full excludes, for the top level, a name that is the id "
+                  "of a top-level section; create_multi_tag with raw positions / extents "
                   "(auto-created arrays, createMultiTagAuto) is in the model and the correspondence, not in the proved "
                   "histories; order_after_delete covers plain containers and link lists, not the subtree deletion of "
                   "sections / sources. Open finding: an entity *named* with the id of a sibling is shadowed by that "
@@ -178,6 +195,23 @@ def _uuid_pin(ctx, n):
                  "dispatch_model_differs_outside_domain": simple_dev}
 
 
+def _feature_key(op):
+    """the key of the op is a Feature OBJECT (`{"o": [..., "features", i]}`)"""
+    k = op[3] if len(op) > 3 and isinstance(op[3], dict) else None
+    p = k.get("o") if k else None
+    return isinstance(p, list) and len(p) >= 2 and p[-2] == "features"
+
+
+def _compare(ops, outs, model):
+    """storegen.compare; a Feature object as key of a container of other entities is refused by both sides, but a
+    feature whose data array has been deleted raises RuntimeError from `str(feature)` inside `util.is_uuid` where the
+    model says TypeError: only refused / accepted is compared there (the property does not name the error class)"""
+    for k, op, m, i in storegen.compare(ops, outs, model):
+        if _feature_key(op) and "err" in m and "err" in i:
+            continue
+        yield k, op, m, i
+
+
 def correspondence(ctx):
     n_hist = ctx.budget(24, 240)
     steps = ctx.budget(45, 70)
@@ -192,7 +226,7 @@ def correspondence(ctx):
         ops = case["ops"]
         outs = _run_fixed(ctx, ops, str(ci))
         model = core.run_driver(PROP, [["reset"]] + ops)[1:]
-        for k, op, m, i in storegen.compare(ops, outs, model):
+        for k, op, m, i in _compare(ops, outs, model):
             disagreements.append(Disagreement({"corpus": case.get("name", ci), "index": k, "op": op, "prefix": ops[:k + 1]},
                                               m, i))
         for k, want in (case.get("expect") or {}).items():
@@ -206,7 +240,7 @@ def correspondence(ctx):
         ops, outs = c03_gen.run_history(ctx, rng, steps, profile, "c03-%d" % h, reopen_prob=0.04,
                                         share=[0.45, 0.25, 0.3][h % 3])
         model = core.run_driver(PROP, [["reset"]] + ops)[1:]
-        for k, op, m, i in storegen.compare(ops, outs, model):
+        for k, op, m, i in _compare(ops, outs, model):
             disagreements.append(Disagreement({"history": h, "index": k, "op": op,
                                                "prefix": ops[:k + 1] if len(ops) < 400 else None}, m, i))
         total += len(ops)
@@ -233,7 +267,10 @@ def correspondence(ctx):
                     "auto-created arrays), properties, features and link lists, names from plain / non-ASCII / 300-char "
                     "/ '..' / UUID-looking pools and, on purpose, names already used by the same kind and by other kinds "
                     "of the same block; every access path of the touched container queried after each step; reopen "
-                    "inserted at random; final HDF5-level dump compared. Then uuid.UUID(text) acceptance over generated "
+                    "inserted at random; entity objects obtained through link lists / positions / extents / metadata / "
+                    "link / feature data used as keys of membership, lookup, append, unlink and delete in the owning "
+                    "container, in a container of the same kind that does not hold the entity and in link lists; "
+                    "final HDF5-level dump compared. Then uuid.UUID(text) acceptance over generated "
                     "spellings. non-trivial = distinct op (canonical JSON) whose result is an error or a non-empty value",
             "samples": samples, "distribution": {"ops": dist, "impl_errors": errs, "uuid": udist},
             "disagreements": disagreements, "exhaustive": False}
